@@ -125,7 +125,7 @@ class Scheduler:
         """(Re-)install tracing for the calling thread; tracing is lost after an injected exception."""
         sys.settrace(self.global_trace)
 
-    def run(self, work, timeout=120.0):
+    def run(self, work, timeout=500.0):
         threads = []
         errors = []
 
